@@ -1,10 +1,10 @@
 (* Extract.v — extraction of the executable model to OCaml (ExtrOcamlBasic only; N and Z stay
    the extracted binary datatypes; no Extract Constant).  Compiled from /verif/runner so that
    model.ml / model.mli land here. *)
-From TSS Require Import Seq Http Fault Boot ConcRig L0.
+From TSS Require Import Seq Http Fault Boot ConcRig L0 Setup.
 From Coq Require Import ExtrOcamlBasic.
 Extraction Language OCaml.
 (* Conc.fstep would shadow Fault.fstep in the flat OCaml module: give the fault semantics its own name *)
 Definition fault_step := Fault.fstep.
 Definition fault_http_step := Fault.http_fstep.
-Extraction "model.ml" l0_txn AStoreB a_empty contract_ok step run_hist http_step fault_step fault_http_step plan_of boot rig_results http_handler InMemB SqliteB im_empty sq_empty default_config N.add N.mul N.div N.modulo.
+Extraction "model.ml" l0_txn AStoreB a_empty contract_ok step run_hist http_step fault_step fault_http_step plan_of boot rig_results dead_start d_none storage_new ready http_handler InMemB SqliteB im_empty sq_empty default_config N.add N.mul N.div N.modulo.
